@@ -1,5 +1,72 @@
 // harness commands owned by the check of property C04 (see tools/props/C04.py)
-#[allow(unused_variables)]
+//
+// corefns <ClassName>...
+//   The functions of core.yl are not reachable through `compile`: they live in the method tables
+//   of the classes that `Vm::with_built_ins` defines as globals of module "main".  For every
+//   class named on the command line this walks the class's and its metaclass's `methods`
+//   (instance methods; static methods and constructors) and dumps the function tree of every
+//   closure found there in the format of `compile` (`F`/`C`/`LN` lines, numbering restarted per
+//   tree), each tree introduced by `P <hex class> <hex method> <m|s>`.  A function reached twice
+//   (inherited method tables are copies) is dumped once.
+use std::collections::HashSet;
+
+use yarel::value::Value;
+
+fn walk_methods(
+    class_name: &str,
+    tag: &str,
+    class: yarel::memory::Gc<yarel::object::ObjClass>,
+    seen: &mut HashSet<usize>,
+    out: &mut Vec<String>,
+) {
+    let mut entries: Vec<(String, Value)> = class
+        .methods
+        .iter()
+        .map(|(k, v)| (k.as_str().to_owned(), *v))
+        .collect();
+    entries.sort_by(|a, b| a.0.cmp(&b.0));
+    for (name, v) in entries {
+        if let Value::ObjClosure(c) = v {
+            let f = c.function;
+            let key = &*f as *const yarel::object::ObjFunction as usize;
+            if !seen.insert(key) {
+                continue;
+            }
+            out.push(format!(
+                "P {} {} {}",
+                crate::hex(class_name.as_bytes()),
+                crate::hex(name.as_bytes()),
+                tag
+            ));
+            let mut counter = 0;
+            crate::dump_function(f, out, &mut counter);
+        }
+    }
+}
+
+fn cmd_corefns(args: &[&str], out: &mut Vec<String>) {
+    let mut vm = crate::new_vm();
+    let mut seen: HashSet<usize> = HashSet::new();
+    for name in args {
+        match vm.global("main", name) {
+            Some(Value::ObjClass(c)) => {
+                out.push(format!("CLASS {} {}", crate::hex(name.as_bytes()), c.methods.len()));
+                walk_methods(name, "m", c, &mut seen, out);
+                walk_methods(name, "s", c.metaclass, &mut seen, out);
+            }
+            Some(_) => out.push(format!("NOCLASS {} not-a-class", crate::hex(name.as_bytes()))),
+            None => out.push(format!("NOCLASS {} undefined", crate::hex(name.as_bytes()))),
+        }
+    }
+    out.push("R ok".to_owned());
+}
+
 pub fn dispatch(cmd: &str, args: &[&str], out: &mut Vec<String>) -> bool {
-    false
+    match cmd {
+        "corefns" => {
+            cmd_corefns(args, out);
+            true
+        }
+        _ => false,
+    }
 }
